@@ -41,7 +41,11 @@ def generate(rng, tier):
             if rng.random() < 0.3:
                 # labels that look like generated names (the output of an earlier normalisation)
                 labels = rng.sample(["A", "B", "C", "D", 0, 1, 2], rng.randrange(1, 5)) + labels[:1]
-            recs = rand_records(rng, regime, nseg=rng.choice([1, 2, 4, 6]), span=12, labels=labels)
+            elif rng.random() < 0.2:
+                # numeric labels whose numeric and printed orders disagree (2 / 10, 9 / 10 / 11, 100 / 20)
+                labels = rng.sample([0, 1, 2, 3, 9, 10, 11, 20, 100, -1], rng.randrange(2, 8))
+            recs = rand_records(rng, regime, nseg=rng.choice([1, 2, 4, 6] if len(labels) < 5 else [6, 9, 12]), span=12,
+                                labels=labels)
             ntr = len(recs) + 3
             g = rng.choice([["string"], ["int"], ["list", [rng.choice(["g%d" % i, 100 + i]) for i in range(ntr)]]])
             sub = rng.sample(labels + ["absent"], rng.randrange(0, len(labels) + 1))
